@@ -56,7 +56,11 @@ fn level_of(id: &str) -> &'static str {
 
 fn parts(id: &'static str, tier: Tier, seed: u64) -> Vec<Part> {
     match id {
-        "C01" | "C02" | "C18" => vec![seq_part(id, tier, seed)],
+        "C01" | "C02" => vec![seq_part(id, tier, seed)],
+        "C18" => vec![
+            seq_part(id, tier, seed),
+            Part { rule: props_misc::C18_EXH_RULE.to_string(), run: Box::new(|ctx, acc| props_misc::run_c18_exhaustive(ctx, acc)) },
+        ],
         "C13" => vec![seq_part(id, tier, seed), e3_part(id)],
         "C07" => vec![
             seq_part(id, tier, seed),
@@ -161,6 +165,7 @@ fn replay_case(id: &'static str, engine: &str, case: serde_json::Value) -> R<Cas
         "STRESS-R" | "STRESS-L" | "STRESS-D" => props_e3::replay_stress(engine, case),
         "C11" => props_c11::replay_c11(case),
         "C08P" => props_misc::replay_c08_planted(case),
+        "C18X" => props_misc::replay_c18x(case),
         "C17" => props_misc::replay_c17(case),
         "C19" => props_misc::replay_c19(case),
         "C10" => props_misc::replay_c10(case),
